@@ -41,6 +41,8 @@ func c04Alphabet(full bool) []jr.Dir {
 				a = append(a, jr.A(d, jr.Bal{Acc: acc, Qty: v, Com: "CHF"}))
 			}
 		}
+		// a position strictly between -1 and 0 (sign and integer part "0") and its assertions
+		a = append(a, jr.T(d1, "h", jr.B(acc, food, "0.5", "CHF")), jr.A(d2, jr.Bal{Acc: acc, Qty: "-0.5", Com: "CHF"}), jr.A(d2, jr.Bal{Acc: acc, Qty: "0.50", Com: "CHF"}))
 		// an income/expense account has no tracked position: close must still close it
 		r := "Expenses:Rent"
 		a = append(a, jr.O(d1, r), jr.C(d1, r), jr.C(d2, r), jr.T(d2, "e", jr.B(food, r, "1", "CHF")))
@@ -62,6 +64,9 @@ func c04Alphabet(full bool) []jr.Dir {
 				a = append(a, jr.T(d, "r", jr.B(acc, food, "1", com)))
 				for _, v := range []string{"0", "1", "-1"} {
 					a = append(a, jr.A(d, jr.Bal{Acc: acc, Qty: v, Com: com}))
+				}
+				if com == "CHF" {
+					a = append(a, jr.T(d, "h", jr.B(acc, food, "0.5", com)), jr.A(d, jr.Bal{Acc: acc, Qty: "-0.5", Com: com}), jr.A(d, jr.Bal{Acc: acc, Qty: "0.50", Com: com}))
 				}
 			}
 			for _, v := range []string{"0", "1"} {
